@@ -359,6 +359,31 @@ theorem C07_deposit_locks (so : ScriptOf) (a : Account) (amount rate : Int) (bes
       · exact Or.inl rfl
       · rw [hr]; simp
 
+/-- **C07_terms_in_force**: a deposit is judged against the auctioneer terms handed to THIS call: whenever it leaves
+any effect, `old + amount ≤ maxV` for the `maxValue = some maxV` of the call (and it is refused without effect when the
+terms cannot be fetched).  Tied to the source: `DepositAccount` queries `Auctioneer.Terms` on every call and the
+manager has no field that could hold earlier terms (regenerated facts `depositQueriesTerms`, `managerTermsFields`), so
+the `maxValue` of the model is the maximum in force when the operation runs (the correspondence run changes the terms
+between operations on one long-lived manager). -/
+theorem C07_terms_in_force (so : ScriptOf) (a : Account) (amount rate : Int) (best eh : UInt32) (nv : Nat)
+    (maxValue : Option Int) (fd : Option Funded) (f : Faults) :
+    ((deposit so a amount rate best eh nv maxValue fd f).trace ≠ [] →
+      ∃ maxV, maxValue = some maxV ∧ a.value + amount ≤ maxV) ∧
+    (maxValue = none → (deposit so a amount rate best eh nv maxValue fd f).trace = []) ∧
+    depositQueriesTerms = true ∧ managerTermsFields = [] := by
+  refine ⟨?_, ?_, by decide, by decide⟩
+  · intro h
+    obtain ⟨_, _, maxV, _, _, hmax, hle, _⟩ := deposit_trace_inv h
+    exact ⟨maxV, hmax, hle⟩
+  · intro hn
+    subst hn
+    unfold deposit
+    split
+    · rfl
+    · split
+      · rfl
+      · rfl
+
 /-! ## spend path and versions -/
 
 /-- **C07_spend_path**: which path a spend takes, as a function of the account and the best height, tied to the
@@ -530,5 +555,9 @@ set_option maxRecDepth 100000 in
 example : depositLocks exSo exAcct 500000 253 800000 0 0 (some 10000000) (some exFunded) {} = .held 1
     ∧ depositLocks exSo exAcct 500000 253 800000 0 0 (some 10000000) (some exFunded) { store := true } = .released 1
     ∧ depositLocks exSo exAcct 500000 253 800000 0 5 (some 100) (some exFunded) {} = .none := by decide
+
+set_option maxRecDepth 100000 in
+example : (deposit exSo exAcct 500000 253 800000 0 0 (some 1400000) (some exFunded) {}).trace = []
+    ∧ (deposit exSo exAcct 500000 253 800000 0 0 (some 1500000) (some exFunded) {}).trace.length = 3 := by decide
 
 end Pool.C07
